@@ -684,11 +684,16 @@ with PolarsImpl.impl_store.impl_manager as impl:
         return x.log()
 
     @impl(ops.floor)
-    def _floor(x):
+    def _floor(x, *, _sig):
+        if _sig[0].is_int():
+            # polars keeps the integer type, but `floor` is declared to return Float
+            x = x.cast(pl.Float64)
         return x.floor()
 
     @impl(ops.ceil)
-    def _ceil(x):
+    def _ceil(x, *, _sig):
+        if _sig[0].is_int():
+            x = x.cast(pl.Float64)
         return x.ceil()
 
     @impl(ops.str_to_datetime)
